@@ -161,6 +161,72 @@ def _steps(ctx: Ctx, fn) -> List[str]:
     return out
 
 
+def _restore_start(ctx: Ctx, rule: str, ss) -> None:
+    rep = ctx.rep
+    param = ss.params[1]
+    n_start = n_skip = 0
+    # meaning of each saved flag: True = "the flag is truthy when the original WAS activated"
+    meaning = {}
+    gs0 = ctx.fn("StateMachine.__getstate__")
+    for p in ctx.paths(gs0, inline=None, exc_edges="none"):
+        for e in p.of("store"):
+            if e.x.get("subscript") and isinstance(e.term.slice, ast.Constant):
+                v = expand(e.x["value"], p.events)
+                if isinstance(v, ast.Compare) and len(v.ops) == 1 and isinstance(v.ops[0], (ast.Is, ast.IsNot)) and show(v.left) == "self.current_state_value":
+                    meaning[e.term.slice.value] = isinstance(v.ops[0], ast.IsNot)
+    for p in ctx.paths(ss, inline=None, exc_edges="none", unroll=1):
+        if p.kind == "raise":
+            continue
+        evs = p.events
+        starts = [e for e in p.calls() if show(e.term.func).endswith(".start") and xshow(e.term.func.value, evs).startswith("self._engine")]
+        # facts about values popped / read from the saved state
+        saved = {}
+        for b in p.of("branch"):
+            t, pol = b.term, b.x["taken"]
+            while isinstance(t, ast.UnaryOp) and isinstance(t.op, ast.Not):
+                t, pol = t.operand, not pol
+            x = expand1(t, evs)
+            if isinstance(x, ast.Call) and show(x.func) in (f"{param}.pop", f"{param}.get") and x.args and isinstance(x.args[0], ast.Constant):
+                saved[x.args[0].value] = (pol, b, x)
+            elif isinstance(x, ast.Subscript) and show(x.value) == param and isinstance(x.slice, ast.Constant):
+                saved[x.slice.value] = (pol, b, x)
+        gates = [(k_, v) for k_, v in saved.items() if not starts or v[1].idx < starts[0].idx]
+        if starts:
+            n_start += 1
+            rep.check(bool(gates), rule, starts[0].loc(),
+                      "restore starts the engine only on what the saved state says about the original's activation (not unconditionally: "
+                      "start() looks at the model, which may still be empty while a copy is being rebuilt)", ss.key, norm_stmt(starts[0].node))
+            for k_, (pol, b, x) in gates:
+                if k_ in meaning:
+                    rep.check(pol is not meaning[k_], rule, starts[0].loc(), "start() runs on restore when the original was NOT activated", ss.key,
+                              f"start() on the path where state[{k_!r}] is {pol}")
+        else:
+            n_skip += 1
+            rep.check(bool(saved), rule, ss.loc(), "restore skips start() only when the saved state says the original was activated", ss.key,
+                      "a restore path without start() and without a test of the saved state")
+            for k_, (pol, b, x) in saved.items():
+                if k_ in meaning:
+                    rep.check(pol is meaning[k_], rule, ss.loc(), "start() is skipped on restore only when the original WAS activated", ss.key,
+                              f"no start() on the path where state[{k_!r}] is {pol}")
+    rep.check(n_start > 0, rule, ss.loc(), "a clone of a not-yet-activated machine still gets its initial activation (start() on restore)", ss.key,
+              "no restore path calls start()")
+    # what the flag records: computed by __getstate__ from the stored state value with a None-test
+    gs = ctx.fn("StateMachine.__getstate__")
+    flags = {}
+    for p in ctx.paths(gs, inline=None, exc_edges="none"):
+        for e in p.of("store"):
+            if e.x.get("subscript") and isinstance(e.term.slice, ast.Constant):
+                flags[e.term.slice.value] = expand(e.x["value"], p.events)
+    act = [(k_, v) for k_, v in flags.items() if "current_state_value" in show(v)]
+    rep.check(bool(act), rule, gs.loc(), "__getstate__ records whether the original was activated (decided on the complete original)", gs.key,
+              f"saved keys: {sorted(flags)}")
+    for k_, v in act:
+        ok = isinstance(v, ast.Compare) and len(v.ops) == 1 and isinstance(v.ops[0], (ast.Is, ast.IsNot)) and \
+            isinstance(v.comparators[0], ast.Constant) and v.comparators[0].value is None and show(v.left) == "self.current_state_value"
+        rep.check(ok, rule, gs.loc(), "activation is decided with a None-test of the stored state value (0 and '' are states)", gs.key,
+                  f"state[{k_!r}] = {show(v)}")
+
+
 def rule_steps(ctx: Ctx, rule: str = "C17.steps"):
     rep = ctx.rep
     init = ctx.fn("StateMachine.__init__")
@@ -170,8 +236,13 @@ def rule_steps(ctx: Ctx, rule: str = "C17.steps"):
     core_a = [x for x in a if x in ("register", "engine", "start")]
     core_b = [x for x in b if x in ("register", "engine", "start")]
     rep.check(core_a == ["register", "engine", "start"], rule, init.loc(), "constructor: register callbacks, choose engine, start", init.key, f"steps: {a}")
-    rep.check(core_b == core_a, rule, ss.loc(), "restore performs the constructor's steps in the constructor's order (incl. start(): a clone of a "
-              "not-yet-activated machine still gets its initial activation)", ss.key, f"restore steps: {b} vs constructor steps: {a}")
+    # the restore registers and chooses the engine like the constructor; start() runs exactly when the *saved* state says
+    # the original had not been activated (the model of a copy under construction may still be empty, so the restore must
+    # not decide this by looking at the model)
+    rep.check([x for x in core_b if x != "start"] == ["register", "engine"], rule, ss.loc(),
+              "restore registers the callbacks and chooses the engine in the constructor's order", ss.key,
+              f"restore steps: {b} vs constructor steps: {a}")
+    _restore_start(ctx, rule, ss)
     if "listeners" in b and "engine" in b:
         rep.check(b.index("listeners") < b.index("engine"), rule, ss.loc(), "listeners are attached before the engine is chosen", ss.key, f"restore steps: {b}")
     c12.rule_engine(ctx, rule=rule, only={"__setstate__"})
